@@ -44,6 +44,7 @@ COMPONENTS = {"real": ["all of /repo/setigen reached by the programs", "blimpy/h
 ASSUMPTIONS = ["observables are returned arrays, frame attributes, RAW file bytes, .fil bytes and .h5 datasets/attributes (not raw HDF5 bytes)",
                "programs never rely on OS entropy: an unseeded draw that changes an observable is reported with its call site"]
 PROBES = ["twin_frame_compared", "twin_raw_compared", "history_compared", "reuse_compared", "user_dict_compared",
+          "reuse_after_failed_recording", "reuse_from_data", "reuse_not_compared_interrupt_inside_source_request",
           "copy_of_load_fil", "copy_of_sizes", "record_default_header", "record_shared_header", "aborted_recording_in_history",
           "array_then_single", "from_data_seeded_estimate", "copy_of_load_h5", "copy_of_derived", "hashseed_program_compared", "near_twin_prefix"]
 
@@ -275,12 +276,37 @@ def generate(rng, tier):
         fresh_h2 = copy.deepcopy(h2)
         if fresh_h2["kind"] == "shared":
             fresh_h2 = {"kind": "user", "cards": fresh_h2["cards"]}
-        sc["ops"] = [{"op": "r_build", "id": 0, "ant": ant, "el": el, "be": be},
-                     {"op": "r_record", "id": 0, "stem": "a1", "num_blocks": n1, "header": h1, "digitize": d},
-                     {"op": "r_record", "id": 0, "stem": "a2", "num_blocks": n2, "header": h2, "digitize": d, "tag": "A"},
-                     {"op": "r_build", "id": 1, "ant": ant, "el": el, "be": be},
-                     {"op": "r_replay_requests", "src": 0, "dst": 1, "upto_record": 1},
-                     {"op": "r_record", "id": 1, "stem": "b2", "num_blocks": n2, "header": fresh_h2, "digitize": d, "tag": "B"}]
+        first = {"op": "r_record", "id": 0, "stem": "a1", "num_blocks": n1, "header": h1, "digitize": d}
+        if rng.random() < 0.45:
+            # the first recording dies part-way (full disk, failing source, interrupt): the reused backend must still
+            # make the recording a fresh one would
+            first["fault"] = rng.choice([{"kind": "enospc", "at": rng.randint(1, 12)}, {"kind": "eio", "at": rng.randint(1, 12)},
+                                         {"kind": "source", "at": rng.randint(1, 3)}, {"kind": "open", "at": rng.randint(1, 2)},
+                                         {"kind": "interrupt", "at": rng.randint(1, 400)}])
+            sc["first_faulted"] = first["fault"]["kind"]
+        if rng.random() < 0.4:
+            # both backends inject onto the same input recording
+            ant0 = dict(copy.deepcopy(ant), seed=rng.randrange(1 << 30))
+            nsb = rng.randint(1, be["W"] + 2)
+            pre = [{"op": "r_build", "id": 5, "ant": ant0, "el": el, "be": be},
+                   {"op": "r_record", "id": 5, "stem": "in", "num_blocks": rng.choice([2, 3, 5]), "header": {"kind": "user", "cards": {}},
+                    "digitize": True}]
+            mk = lambda i: {"op": "r_from_data", "id": i, "ant": ant, "el": el, "be": be, "in_stem": "in", "num_subblocks": nsb,
+                            "listing": "sorted"}
+            sc["from_data"] = True
+            # the channelised-noise estimate is a randomness source: seeded, identically for both backends
+            es, ef = rng.randrange(1 << 30), rng.choice([50, 200])
+            est = lambda i: [{"op": "r_estimate", "id": i, "seed": es, "factor": ef}]
+        else:
+            pre = []
+            mk = lambda i: {"op": "r_build", "id": i, "ant": ant, "el": el, "be": be}
+            est = lambda i: []
+        sc["ops"] = pre + [mk(0)] + est(0) + [
+                           first,
+                           {"op": "r_record", "id": 0, "stem": "a2", "num_blocks": n2, "header": h2, "digitize": d, "tag": "A"},
+                           mk(1)] + est(1) + [
+                           {"op": "r_replay_requests", "src": 0, "dst": 1, "upto_record": 1},
+                           {"op": "r_record", "id": 1, "stem": "b2", "num_blocks": n2, "header": fresh_h2, "digitize": d, "tag": "B"}]
         sc["h2_kind"] = h2["kind"] + ("=h1" if h2["kind"] == "shared" and h1.get("name") == h2.get("name") else "")
         sc["fixed_ops"] = True
     else:
@@ -555,11 +581,21 @@ def execute(sc, ctx):
         ev = a["events"]
         recs = [e for e in ev if e[1].endswith("#A")] + [e for e in ev if e[1].endswith("#B")]
         ctx.hit("reuse_compared" if mode == "reuse" else "user_dict_compared")
+        if sc.get("first_faulted") and a.get("reach", {}).get("aborted_recording_in_history"):
+            ctx.hit("reuse_after_failed_recording")
+        if sc.get("from_data"):
+            ctx.hit("reuse_from_data")
         ctx.nontrivial = len(recs) == 2
         ctx.event(mode, a["digest"])
-        if len(recs) == 2 and recs[0][2] != recs[1][2]:
+        if mode == "reuse" and a.get("reach", {}).get("interrupt_inside_source_request"):
+            # the first recording was interrupted inside antenna.get_samples: the streams are unevenly advanced and the
+            # request log no longer describes the antenna's state, so no fresh backend can be put in "the same" state
+            ctx.hit("reuse_not_compared_interrupt_inside_source_request")
+        elif len(recs) == 2 and recs[0][2] != recs[1][2]:
             if mode == "reuse":
-                ctx.violation("reuse", "C12/reuse_backend/second_recording_differs_from_fresh_backend/header=%s" % sc.get("h2_kind"),
+                ctx.violation("reuse", "C12/reuse_backend/second_recording_differs_from_fresh_backend/header=%s%s%s" % (
+                    sc.get("h2_kind"), "/from_data" if sc.get("from_data") else "",
+                    "/first_recording_failed:" + sc["first_faulted"] if sc.get("first_faulted") else ""),
                               "the second recording of a reused backend differs from the same recording made by a fresh backend "
                               "on a same-seed antenna advanced by the identical request log")
             else:
